@@ -349,8 +349,64 @@ class Sym:
     # ---------------------------------------------------------- paths
     def paths(self, entry=0, max_paths=MAX_PATHS, stop_at=None):
         out = []
-        env0 = {"locals": {}, "mem": []}
+        env0 = {"locals": dict(self._entry_consts(entry)) if entry else {}, "mem": []}
         self._walk(entry, env0, Path(), set(), out, max_paths, stop_at or set())
+        return out
+
+    def _entry_consts(self, entry):
+        """Locals that hold a compile-time constant whenever control reaches `entry`: assigned exactly once, by a statement in a
+        block strictly dominating `entry`, never borrowed or stored through, of primitive type, and whose value is built only
+        from constants, const parameters and other such locals.  (A walk started at a loop header otherwise loses them.)"""
+        key = ("entry_consts", entry)
+        cache = self.__dict__.setdefault("_ec", {})
+        if key in cache:
+            return cache[key]
+        b = self.b
+        tainted = set()
+        for blk in b.blocks:
+            for s_ in blk["stmts"]:
+                if s_.get("rv") in ("ref", "rawptr") and "place" in s_:
+                    tainted.add(s_["place"]["l"])
+                d_ = s_.get("dst")
+                if d_ is not None and "p" in d_:
+                    tainted.add(d_["l"])
+            t_ = blk["term"]
+            if t_["t"] == "call" and "p" in t_["dst"]:
+                tainted.add(t_["dst"]["l"])
+
+        def is_const(e):
+            if not isinstance(e, tuple) or not e:
+                return True
+            if e[0] in ("const", "cparam", "cpath"):
+                return True
+            if e[0] in ("cast", "bin", "un"):
+                return all(is_const(x) for x in e[1:] if isinstance(x, tuple))
+            return False
+
+        out = {}
+        changed = True
+        while changed:
+            changed = False
+            for local, ds in b.defs().items():
+                if local in out or local in tainted or len(ds) != 1 or ds[0][1] == "term":
+                    continue
+                bb = ds[0][0]
+                if bb == entry or not b.dominates(bb, entry) or 1 <= local <= self.nparams:
+                    continue
+                ty = b.local_ty(local)
+                if not ty or ty.get("k") != "prim":
+                    continue
+                st = ds[0][2]
+                if st.get("rv") not in ("use", "cast", "bin", "un"):
+                    continue
+                try:
+                    v = self.rvalue({"locals": dict(out), "mem": []}, st)
+                except Exception:
+                    continue
+                if is_const(v):
+                    out[local] = v
+                    changed = True
+        cache[key] = out
         return out
 
     def _unwrap_or_diamond(self, env, p, bb, d, t):
